@@ -40,6 +40,8 @@ type RunResult struct {
 	Extra        map[string]interface{}
 	Exhaustive   bool
 	BuildDigests map[string]string
+	Stalled      int  // shards that gave up on a case
+	Incomplete   bool // some shard did not run to completion (stalled, timed out, died): per-build digests are then not comparable
 }
 
 // AddViolation lets a Post hook report a violation found by an offline checker.
@@ -129,8 +131,12 @@ func Root() string {
 	return "/verif"
 }
 
+// A build name may carry the suffix "+cpuoff": the same binary run with GODEBUG=cpu.all=off, so that code
+// dispatched on optional CPU features at run time (x/sys/cpu, internal/cpu) takes its fallback path.
+const cpuOffSuffix = "+cpuoff"
+
 func binFor(root, build string) string {
-	switch build {
+	switch strings.TrimSuffix(build, cpuOffSuffix) {
 	case "purego":
 		return filepath.Join(root, "bin", "vmon-purego")
 	case "race":
@@ -218,16 +224,31 @@ func Supervise(p *Prop, tier string) int {
 			continue
 		}
 		var wg sync.WaitGroup
-		res := make([]childOutcome, nshards)
+		res := make([][]childOutcome, nshards)
 		for s := 0; s < nshards; s++ {
 			wg.Add(1)
 			go func(s int) {
 				defer wg.Done()
-				res[s] = runChildProc(bin, p.ID, tier, seed, s, nshards, b, work, time.Duration(wd)*time.Second)
+				// a shard that gave up on a stalled case (exit status 4, partial result) is restarted behind it
+				from := int64(0)
+				stalledFor := 0.0
+				for attempt := 0; attempt <= maxRestarts && stalledFor < maxStallSeconds; attempt++ {
+					oc := runChildProc(bin, p.ID, tier, seed, s, nshards, b, work, time.Duration(wd)*time.Second, attempt, from)
+					res[s] = append(res[s], oc)
+					var sr ShardResult
+					js, err := os.ReadFile(oc.base + ".json")
+					if err != nil || json.Unmarshal(js, &sr) != nil || sr.Stalled == nil {
+						break
+					}
+					from = sr.Stalled.Index + 1
+					stalledFor += sr.Stalled.Seconds
+				}
 			}(s)
 		}
 		wg.Wait()
-		outcomes = append(outcomes, res...)
+		for _, rs := range res {
+			outcomes = append(outcomes, rs...)
+		}
 	}
 
 	// merge
@@ -235,8 +256,15 @@ func Supervise(p *Prop, tier string) int {
 	for _, oc := range outcomes {
 		var sr ShardResult
 		js, err := os.ReadFile(oc.base + ".json")
-		completed := err == nil && json.Unmarshal(js, &sr) == nil && sr.Completed
+		completed := err == nil && json.Unmarshal(js, &sr) == nil && (sr.Completed || sr.Stalled != nil)
+		if completed && sr.Stalled != nil {
+			st := sr.Stalled
+			r.AddInconclusive("shard %s/%d gave up on a case that was in flight for %.0f s (class=%s key=%s) and was restarted behind it; goroutines at that time:\n%s", oc.build, oc.shard, st.Seconds, st.Class, st.KeyHex, st.Stack)
+			r.Stalled++
+			r.Incomplete = true
+		}
 		if !completed {
+			r.Incomplete = true
 			inflight := readSlot(oc.base + ".slot")
 			tail := tailFile(oc.base+".out", 6000)
 			switch {
@@ -415,8 +443,17 @@ func Supervise(p *Prop, tier string) int {
 	return 0
 }
 
-func runChildProc(bin, prop, tier string, seed int64, shard, nshards int, build, work string, watchdog time.Duration) childOutcome {
+// maxRestarts / maxStallSeconds bound how often one shard is restarted behind a stalled case.
+const (
+	maxRestarts     = 24
+	maxStallSeconds = 450
+)
+
+func runChildProc(bin, prop, tier string, seed int64, shard, nshards int, build, work string, watchdog time.Duration, attempt int, from int64) childOutcome {
 	base := filepath.Join(work, fmt.Sprintf("%s-%d", build, shard))
+	if attempt > 0 {
+		base += fmt.Sprintf("-r%d", attempt)
+	}
 	oc := childOutcome{build: build, shard: shard, base: base}
 	out, err := os.Create(base + ".out")
 	if err != nil {
@@ -427,7 +464,10 @@ func runChildProc(bin, prop, tier string, seed int64, shard, nshards int, build,
 	cmd := exec.Command(bin, "child", prop, tier, strconv.FormatInt(seed, 10), strconv.Itoa(shard), strconv.Itoa(nshards), build, work)
 	cmd.Stdout = out
 	cmd.Stderr = out
-	cmd.Env = append(os.Environ(), "GOTRACEBACK=all")
+	cmd.Env = append(os.Environ(), "GOTRACEBACK=all", fmt.Sprintf("VERIF_ATTEMPT=%d", attempt), fmt.Sprintf("VERIF_FROM=%d", from))
+	if strings.HasSuffix(build, cpuOffSuffix) {
+		cmd.Env = append(cmd.Env, "GODEBUG=cpu.all=off")
+	}
 	if build == "race" {
 		cmd.Env = append(cmd.Env, fmt.Sprintf("GORACE=halt_on_error=0 log_path=%s", filepath.Join(work, fmt.Sprintf("racelog-%d", shard))))
 	}
